@@ -53,6 +53,8 @@ TraceStats g_stats;
 std::function<void( RunStatus )> g_on_abort;
 int g_low_prio = 0;
 int g_idle_rounds = 0;
+int g_next_kind = -1;          // kind of the atomic operation the current thread is about to perform (M_CASBIAS)
+int g_last_kind[64];           // kind of the last atomic operation of each thread (M_CASBIAS)
 int g_last_run = -1;
 uint64_t g_consecutive = 0;
 
@@ -141,6 +143,22 @@ int choose( int me )
                 best = cand[i];
         return best;
     }
+    case M_CASBIAS: {
+        // context switches cluster around CAS / exchange operations: right before one (the window between the
+        // read that fixed the expected value and the CAS) and right after one (the window in which the algorithm
+        // has published a step but not the follow-up, or has just lost a race); rare elsewhere
+        bool hot = g_next_kind == K_CAS_OK || g_next_kind == K_XCHG
+                || ( me >= 0 && ( g_last_kind[me] == K_CAS_OK || g_last_kind[me] == K_CAS_FAIL || g_last_kind[me] == K_XCHG ));
+        if ( me >= 0 && runnable( me ) && !g_rng.chance( hot ? g_cfg.switch_pct : 3 ))
+            return me;
+        if ( nc > 1 && me >= 0 ) {      // a switch goes to somebody else
+            int k = 0;
+            int other[64];
+            for ( int i = 0; i < nc; ++i ) if ( cand[i] != me ) other[k++] = cand[i];
+            if ( k ) return other[g_rng.below( k )];
+        }
+        return cand[g_rng.below( nc )];
+    }
     default: {
         if ( me >= 0 && runnable( me ) && !g_rng.chance( g_cfg.switch_pct ))
             return me;
@@ -192,11 +210,12 @@ void sched_point( int me )
 
 // ---------------------------------------------------------------- hooks
 
-bool pre_op( void const* ) noexcept
+bool pre_op( void const*, int next_kind ) noexcept
 {
     int me = tls_tid;
     if ( me < 0 || !g_active || tls_quiet )
         return false;
+    g_next_kind = next_kind;
     sched_point( me );
     return g_cfg.trace;
 }
@@ -215,6 +234,7 @@ void post_op( OpKind k, void const* addr, unsigned size, bool isptr, void const*
     copy_val( r.a, a, size );
     copy_val( r.b, b, size );
     bool changed = false;
+    if ( tls_tid >= 0 && tls_tid < 64 ) g_last_kind[tls_tid] = int( k );
     switch ( k ) {
     case K_LD: ++g_stats.loads; break;
     case K_ST: ++g_stats.stores; changed = r.a[0] != r.b[0] || r.a[1] != r.b[1]; break;
@@ -323,6 +343,7 @@ RunStatus run_case( int nthreads, std::function<void( int )> const& body, SchedC
     g_rng = Rng( cfg.seed * 0x2545F4914F6CDD1Dull + 12345 );
     g_n = nthreads;
     g_ndone = 0; g_step = 0; g_clock = 0; g_low_prio = 0; g_idle_rounds = 0; g_last_run = -1; g_consecutive = 0;
+    g_next_kind = -1; for ( int i = 0; i < 64; ++i ) g_last_kind[i] = -1;
     g_sched.clear(); g_trace.clear(); g_notes.clear();
     g_stats = TraceStats();
     g_on_abort = on_abort;
